@@ -152,7 +152,7 @@ def run_machine(desc):
                 super().__init__()
                 self.kept = []
                 self.history = []
-                self.info0 = WCP._compile.cache_info()
+                self.info0 = util.cache_info()
                 self.hit_seen = False
                 self.evict_seen = False
 
@@ -163,9 +163,9 @@ def run_machine(desc):
                 raise AssertionError('history dependence')
 
             def do(self, d):
-                before = WCP._compile.cache_info()
+                before = util.cache_info()
                 got = call(d, root)
-                after = WCP._compile.cache_info()
+                after = util.cache_info()
                 out.evaluations += 1
                 self.history.append(d)
                 if after.hits > before.hits and len(texts_multi.get(d[1], ())) > 1:
@@ -226,7 +226,7 @@ def run_machine(desc):
                 d = (kind, p, fl, nm)
                 want = table.get(d)
                 if want is None:
-                    util_cache = WCP._compile.cache_info()
+                    util_cache = util.cache_info()
                     want = call(d, root)       # not in the table: evaluate once more (cache state irrelevant for the comparison below)
                 got = m.match(nm)
                 out.evaluations += 1
@@ -372,7 +372,36 @@ def run_objects(desc):
         out.evaluations += 1
         if x == y and i != 5:
             out.violation({'pair': i, 'problem': 'matchers built from behaviour-changing different arguments compare equal'}, bucket=('identity', i))
-    out.sample({'kind': 'objects', 'matchers': len(ms), 'pairs': len(keys) * (len(keys) - 1) // 2})
+    # matchers that look at the file system (REALPATH, with and without FOLLOW): twins behave alike on paths through symlinks
+    link_tree = [('d', 'd'), ('f', 'd/a'), ('d', 'd/e'), ('f', 'd/e/a'), ('l', 'ld', 'd'), ('l', 'lf', 'd/a'), ('l', 'dang', 'nowhere'), ('d', '.h'),
+                 ('l', '.h/ld', '../d')]
+    rnames = ['d/a', 'ld/a', 'ld/e/a', 'd/e/a', 'lf', 'dang', 'ld', 'd', '.h/ld/a', 'zz', 'ld/', 'd/e/']
+    rflags = [G.P | G.G, G.P | G.G | G.L, G.P | G.G | G.L | G.D, G.P, G.P | G.X, G.P | G.X | G.L, G.P | G.G | G.GL, G.P | G.G | G.O, G.P | G.G | G.K]
+    with FC.built_tree(link_tree) as (root, _r):
+        rms = {}
+        for p in ('**/a', '**', 'ld/*', '*/a', 'a', '**/e/*', '*', '***/a', '**/'):
+            for fl in rflags:
+                rms[(p, fl)] = G.compile(p, flags=fl)
+        rbeh = {k: tuple(bool(m.match(n, root_dir=root)) for n in rnames) for k, m in rms.items()}
+        for k, m in rms.items():
+            out.evaluations += 1
+            for label, o in (('rebuilt', G.compile(k[0], flags=k[1])), ('pickle', pickle.loads(pickle.dumps(m))), ('deepcopy', copy.deepcopy(m)),
+                             ('copy', copy.copy(m))):
+                if not (o == m and hash(o) == hash(m)):
+                    out.violation({'key': [k[0], k[1]], 'problem': 'REALPATH matcher not equal / hash-equal to its %s twin' % label}, bucket=('rtwin', label))
+                b = tuple(bool(o.match(n, root_dir=root)) for n in rnames)
+                if b != rbeh[k]:
+                    out.violation({'key': [k[0], k[1]], 'names': rnames, 'twin': list(b), 'original': list(rbeh[k]),
+                                   'problem': 'REALPATH matcher behaves differently from its %s twin on paths through symlinks' % label},
+                                  bucket=('rtwin-beh', label))
+            out.nontrivial(('robj', k[0], k[1]))
+        for a, b in itertools.combinations(list(rms), 2):
+            out.evaluations += 1
+            if rms[a] == rms[b] and rbeh[a] != rbeh[b]:
+                out.violation({'a': list(a), 'b': list(b), 'problem': 'REALPATH matchers compare equal but accept different paths'}, bucket=('req',))
+        out.stats['realpath_matchers_where_follow_matters'] += sum(
+            1 for (p, fl) in rms if fl & G.L and (p, fl & ~G.L) in rms and rbeh[(p, fl)] != rbeh[(p, fl & ~G.L)])
+    out.sample({'kind': 'objects', 'matchers': len(ms), 'pairs': len(keys) * (len(keys) - 1) // 2, 'realpath_matchers': len(rms)})
     return out
 
 
@@ -452,17 +481,7 @@ def world_call(d, root):
     raise HarnessError(kind)
 
 
-def clear_every_cache():
-    """Clear every functools cache reachable from a wcmatch / bracex module (not only the one the documentation names)."""
-    n = 0
-    for name, mod in list(sys.modules.items()):
-        if mod is None or not (name == 'wcmatch' or name.startswith('wcmatch.') or name == 'bracex' or name.startswith('bracex.')):
-            continue
-        for v in list(vars(mod).values()):
-            if callable(getattr(v, 'cache_clear', None)):
-                v.cache_clear()
-                n += 1
-    return n
+clear_every_cache = util.clear_caches
 
 
 WORLD_SCRIPT = r"""
